@@ -1,95 +1,366 @@
-// temporary probe (replaced by the real harness)
+//! C12 — no query text can crash or hang the embedding process.
+//!
+//! Three kinds of cases are emitted:
+//!  * correspondence of the five lexers with the cursor models of GV.Lex.Cursor (token classes and
+//!    spans, or Panic), and of the filter arithmetic / index arithmetic with GV.Lex.Arith;
+//!  * search/oracle: every generated string (and parameter map) goes through `parse`,
+//!    `translate_*` and `Session::execute*` of all five front ends on an empty and a populated
+//!    database.  The implementation runs in *worker child processes* of this very binary
+//!    (`--worker`), so that a panic (caught), a hang (2 s watchdog, the worker is killed), a stack
+//!    overflow (SIGABRT of the worker) and memory exhaustion (address-space limit of the worker)
+//!    are all observable and none of them takes the harness down;
+//!  * nesting-depth probes (`nest` cases): per language and nesting construct, the depth at which
+//!    the worker aborts with a stack overflow is searched by doubling + bisection.
 use grafeo_common::types::Value;
 use grafeo_engine::GrafeoDB;
 use gv_harness::*;
+use std::collections::HashMap;
+use std::io::{BufRead, BufReader, Write};
+use std::process::{Child, ChildStdin, Command, Stdio};
+use std::sync::mpsc;
+use std::time::{Duration, Instant};
+
+// ------------------------------------------------------------------------------------------
+// languages
+// ------------------------------------------------------------------------------------------
+
+const LANGS: [&str; 5] = ["gql", "cypher", "sparql", "gremlin", "graphql"];
+
+fn parse_only(lang: &str, q: &str) -> Result<(), String> {
+    use grafeo_adapters::query as aq;
+    match lang {
+        "gql" => aq::gql::parse(q).map(|_| ()).map_err(|e| e.to_string()),
+        "cypher" => aq::cypher::parse(q).map(|_| ()).map_err(|e| e.to_string()),
+        "sparql" => aq::sparql::parse(q).map(|_| ()).map_err(|e| e.to_string()),
+        "gremlin" => aq::gremlin::parse(q).map(|_| ()).map_err(|e| e.to_string()),
+        "graphql" => aq::graphql::parse(q).map(|_| ()).map_err(|e| e.to_string()),
+        _ => Err("unknown language".into()),
+    }
+}
+
+fn translate_only(lang: &str, q: &str) -> Result<(), String> {
+    use grafeo_engine::query as eq;
+    match lang {
+        "gql" => eq::translate_gql(q).map(|_| ()).map_err(|e| e.to_string()),
+        "cypher" => eq::translate_cypher(q).map(|_| ()).map_err(|e| e.to_string()),
+        "sparql" => eq::translate_sparql(q).map(|_| ()).map_err(|e| e.to_string()),
+        "gremlin" => eq::translate_gremlin(q).map(|_| ()).map_err(|e| e.to_string()),
+        "graphql" => {
+            let a = eq::translate_graphql(q).map(|_| ()).map_err(|e| e.to_string());
+            let _ = eq::translate_graphql_rdf(q, "http://e/").map(|_| ());
+            a
+        }
+        _ => Err("unknown language".into()),
+    }
+}
 
 fn populated() -> GrafeoDB {
     let db = GrafeoDB::new_in_memory();
     let mut ids = vec![];
     for i in 0..6i64 {
-        let n = db.create_node(&["Person"]);
-        db.set_node_property(n, "name", Value::String(format!("p{}", i).into()));
+        let n = db.create_node(if i % 2 == 0 { &["Person"] } else { &["Person", "User"] });
+        db.set_node_property(n, "name", Value::String(if i == 3 { "Zoë €𝄞".to_string() } else { format!("p{}", i) }.into()));
         db.set_node_property(n, "age", Value::Int64(20 + i));
         db.set_node_property(n, "big", Value::Int64(if i % 2 == 0 { i64::MAX } else { i64::MIN }));
         db.set_node_property(n, "zero", Value::Int64(0));
+        db.set_node_property(n, "neg1", Value::Int64(-1));
+        db.set_node_property(n, "f", Value::Float64(if i == 0 { f64::NAN } else if i == 1 { f64::INFINITY } else { 0.5 * i as f64 }));
+        db.set_node_property(n, "l", Value::List(vec![Value::Int64(1), Value::Int64(2), Value::Int64(3)].into()));
+        db.set_node_property(n, "s", Value::String("héllo".into()));
+        if i == 4 {
+            db.set_node_property(n, "nul", Value::Null);
+        }
         ids.push(n);
     }
     for i in 0..5 {
-        db.create_edge(ids[i], ids[i + 1], "KNOWS");
+        let e = db.create_edge(ids[i], ids[i + 1], if i % 2 == 0 { "KNOWS" } else { "LIKES" });
+        db.set_edge_property(e, "w", Value::Int64(i64::MAX - i as i64));
+    }
+    db.create_edge(ids[5], ids[5], "KNOWS");
+    db.create_edge(ids[5], ids[0], "KNOWS");
+    {
+        use grafeo_core::graph::rdf::{Term, Triple};
+        let st = db.rdf_store();
+        let i = |s: &str| Term::iri(format!("http://e/{}", s));
+        let xsd_int = "http://www.w3.org/2001/XMLSchema#integer";
+        for t in [
+            Triple::new(i("a"), i("p"), i("b")),
+            Triple::new(i("b"), i("p"), i("c")),
+            Triple::new(i("c"), i("p"), i("a")),
+            Triple::new(i("a"), i("q"), Term::literal("x")),
+            Triple::new(i("b"), i("q"), Term::lang_literal("Zoë", "en")),
+            Triple::new(i("a"), i("n"), Term::typed_literal("9223372036854775807", xsd_int)),
+            Triple::new(i("b"), i("n"), Term::typed_literal("-9223372036854775808", xsd_int)),
+            Triple::new(i("c"), i("n"), Term::typed_literal("0", xsd_int)),
+            Triple::new(Term::blank("z"), i("p"), i("a")),
+        ] {
+            st.insert(t);
+        }
     }
     db
 }
 
-fn run(lang: &str, q: &str) {
-    let q1 = q.to_string();
-    let l1 = lang.to_string();
-    let r = catch(move || match l1.as_str() {
-        "gql" => grafeo_adapters::query::gql::parse(&q1).map(|_| ()).map_err(|e| e.to_string()),
-        "cypher" => grafeo_adapters::query::cypher::parse(&q1).map(|_| ()).map_err(|e| e.to_string()),
-        "sparql" => grafeo_adapters::query::sparql::parse(&q1).map(|_| ()).map_err(|e| e.to_string()),
-        "gremlin" => grafeo_adapters::query::gremlin::parse(&q1).map(|_| ()).map_err(|e| e.to_string()),
-        "graphql" => grafeo_adapters::query::graphql::parse(&q1).map(|_| ()).map_err(|e| e.to_string()),
-        _ => panic!("lang"),
-    });
-    println!("parse: {:?}", r);
-    for pop in [false, true] {
-        let q1 = q.to_string();
-        let l1 = lang.to_string();
-        let r = catch(move || {
-            let db = if pop { populated() } else { GrafeoDB::new_in_memory() };
-            let s = db.session();
-            let r = match l1.as_str() {
-                "gql" => s.execute(&q1),
-                "cypher" => s.execute_cypher(&q1),
-                "sparql" => s.execute_sparql(&q1),
-                "gremlin" => s.execute_gremlin(&q1),
-                "graphql" => s.execute_graphql(&q1),
-                _ => panic!("lang"),
-            };
-            match r {
-                Ok(r) => format!("Ok cols={:?} rows={:?}", r.columns, r.rows.iter().take(5).collect::<Vec<_>>()),
-                Err(e) => format!("Err {}", e),
+fn execute(lang: &str, pop: bool, q: &str, params: Option<HashMap<String, Value>>) -> Result<usize, String> {
+    let db = if pop { populated() } else { GrafeoDB::new_in_memory() };
+    let s = db.session();
+    let r = match (lang, params) {
+        ("gql", None) => s.execute(q),
+        ("gql", Some(p)) => s.execute_with_params(q, p),
+        ("cypher", None) => s.execute_cypher(q),
+        ("cypher", Some(p)) => db.execute_cypher_with_params(q, p),
+        ("sparql", None) => s.execute_sparql(q),
+        ("sparql", Some(p)) => s.execute_sparql_with_params(q, p),
+        ("gremlin", None) => s.execute_gremlin(q),
+        ("gremlin", Some(p)) => s.execute_gremlin_with_params(q, p),
+        ("graphql", None) => s.execute_graphql(q),
+        ("graphql", Some(p)) => s.execute_graphql_with_params(q, p),
+        _ => return Err("unknown language".into()),
+    };
+    match r {
+        Ok(r) => {
+            // walk the result so that lazily failing Display/Debug code runs too
+            let mut n = 0usize;
+            for row in &r.rows {
+                for v in row {
+                    n += format!("{:?}", v).len();
+                }
             }
-        });
-        println!("exec pop={}: {:?}", pop, r);
+            Ok(r.rows.len() + (n & 0))
+        }
+        Err(e) => Err(e.to_string()),
     }
 }
+
+// ------------------------------------------------------------------------------------------
+// parameter maps
+// ------------------------------------------------------------------------------------------
+
+/// Parameter maps are a function of a small index so that a job line stays short.
+fn param_map(ix: u64) -> HashMap<String, Value> {
+    let ints = [0, 1, -1, i64::MAX, i64::MIN, i64::MAX - 1, i64::MIN + 1, 1 << 53, 42];
+    let vals: Vec<Value> = vec![
+        Value::Int64(ints[(ix % 9) as usize]),
+        Value::Int64(ints[((ix / 9) % 9) as usize]),
+        Value::Null,
+        Value::Bool(ix % 2 == 0),
+        Value::Float64([0.0, -0.0, f64::NAN, f64::INFINITY, f64::MIN_POSITIVE, 1e308][(ix % 6) as usize]),
+        Value::String(["", "a", "Zoë €𝄞", "\0", "'\"\\", "%_.*"][(ix % 6) as usize].into()),
+        Value::List(vec![Value::Int64(ints[(ix % 9) as usize]), Value::Null, Value::String("é".into())].into()),
+        Value::List(Vec::new().into()),
+    ];
+    let names = ["p", "q", "x", "name", "id", "min", "limit", "list"];
+    let mut m = HashMap::new();
+    for (k, n) in names.iter().enumerate() {
+        m.insert(n.to_string(), vals[((ix as usize) + k * 3) % vals.len()].clone());
+    }
+    m
+}
+
+// ------------------------------------------------------------------------------------------
+// worker (child process)
+// ------------------------------------------------------------------------------------------
+
+fn hex(s: &[u8]) -> String {
+    let mut o = String::with_capacity(s.len() * 2);
+    for b in s {
+        o.push_str(&format!("{:02x}", b));
+    }
+    o
+}
+fn unhex(s: &str) -> Vec<u8> {
+    (0..s.len() / 2).map(|i| u8::from_str_radix(&s[2 * i..2 * i + 2], 16).unwrap()).collect()
+}
+
+const ST_PARSE: u32 = 1;
+const ST_TRANS: u32 = 2;
+const ST_EXEC_E: u32 = 4;
+const ST_EXEC_P: u32 = 8;
+const ST_ALL: u32 = 15;
+const STAGE_NAMES: [(u32, &str); 4] = [(ST_PARSE, "parse"), (ST_TRANS, "translate"), (ST_EXEC_E, "exec-empty"), (ST_EXEC_P, "exec-populated")];
+
+/// job line: `<lang> <stage mask> <param index or -> <hex query>`; answer: one line
+/// `R <stage>=<o|e|P:hexmsg> ...`
+fn worker() {
+    let stdin = std::io::stdin();
+    let stdout = std::io::stdout();
+    quiet_panics();
+    for line in stdin.lock().lines() {
+        let line = match line {
+            Ok(l) => l,
+            Err(_) => break,
+        };
+        let f: Vec<&str> = line.split(' ').collect();
+        if f.len() != 4 {
+            continue;
+        }
+        let lang = f[0].to_string();
+        let mask: u32 = f[1].parse().unwrap_or(ST_ALL);
+        let pix: Option<u64> = f[2].parse().ok();
+        let q = String::from_utf8(unhex(f[3])).unwrap_or_default();
+        let mut ans = String::from("R");
+        for (bit, name) in STAGE_NAMES {
+            if mask & bit == 0 {
+                continue;
+            }
+            let (l2, q2) = (lang.clone(), q.clone());
+            let r: Result<Result<(), String>, String> = catch(move || match bit {
+                ST_PARSE => parse_only(&l2, &q2),
+                ST_TRANS => translate_only(&l2, &q2),
+                ST_EXEC_E => execute(&l2, false, &q2, pix.map(param_map)).map(|_| ()),
+                _ => execute(&l2, true, &q2, pix.map(param_map)).map(|_| ()),
+            });
+            match r {
+                Ok(Ok(())) => ans.push_str(&format!(" {}=o", name)),
+                Ok(Err(_)) => ans.push_str(&format!(" {}=e", name)),
+                Err(m) => ans.push_str(&format!(" {}=P:{}", name, hex(m.as_bytes()))),
+            }
+        }
+        let mut o = stdout.lock();
+        let _ = writeln!(o, "{}", ans);
+        let _ = o.flush();
+    }
+}
+
+#[derive(Clone, Debug, PartialEq)]
+enum Outcome {
+    /// every requested stage returned (Ok or Err)
+    Returned,
+    /// a stage panicked (caught): (stage, message)
+    Panic(String, String),
+    /// no answer within the watchdog time
+    Hang,
+    /// the worker died (signal / abort): exit description
+    Abort(String),
+}
+
+struct Worker {
+    child: Child,
+    stdin: ChildStdin,
+    rx: mpsc::Receiver<String>,
+}
+
+fn self_exe() -> String {
+    std::env::current_exe().unwrap().to_string_lossy().to_string()
+}
+
+impl Worker {
+    fn spawn() -> Worker {
+        // address-space limit 4 GiB: a runaway allocation loop ends in an abort instead of
+        // exhausting the machine
+        let mut child = Command::new("sh")
+            .arg("-c")
+            .arg("ulimit -v 4194304; exec \"$0\" --worker")
+            .arg(self_exe())
+            .stdin(Stdio::piped())
+            .stdout(Stdio::piped())
+            .stderr(Stdio::null())
+            .spawn()
+            .expect("spawn worker");
+        let stdin = child.stdin.take().unwrap();
+        let stdout = child.stdout.take().unwrap();
+        let (tx, rx) = mpsc::channel();
+        std::thread::spawn(move || {
+            let r = BufReader::new(stdout);
+            for l in r.lines() {
+                match l {
+                    Ok(l) => {
+                        if tx.send(l).is_err() {
+                            break;
+                        }
+                    }
+                    Err(_) => break,
+                }
+            }
+        });
+        Worker { child, stdin, rx }
+    }
+    fn kill(&mut self) {
+        let _ = self.child.kill();
+        let _ = self.child.wait();
+    }
+}
+
+struct Pool {
+    w: Option<Worker>,
+    pub timeout: Duration,
+    pub respawns: usize,
+}
+
+impl Pool {
+    fn new() -> Pool {
+        Pool { w: None, timeout: Duration::from_millis(2000), respawns: 0 }
+    }
+    fn run(&mut self, lang: &str, mask: u32, pix: Option<u64>, q: &str) -> (Outcome, f64) {
+        if self.w.is_none() {
+            self.w = Some(Worker::spawn());
+            self.respawns += 1;
+        }
+        let t0 = Instant::now();
+        let line = format!("{} {} {} {}\n", lang, mask, pix.map(|p| p.to_string()).unwrap_or("-".into()), hex(q.as_bytes()));
+        let w = self.w.as_mut().unwrap();
+        let sent = w.stdin.write_all(line.as_bytes()).and_then(|_| w.stdin.flush());
+        let out = if sent.is_err() {
+            Outcome::Abort("worker pipe closed".into())
+        } else {
+            match w.rx.recv_timeout(self.timeout) {
+                Ok(l) => {
+                    let mut o = Outcome::Returned;
+                    for part in l.split(' ').skip(1) {
+                        if let Some((st, r)) = part.split_once('=') {
+                            if let Some(m) = r.strip_prefix("P:") {
+                                o = Outcome::Panic(st.to_string(), String::from_utf8_lossy(&unhex(m)).to_string());
+                                break;
+                            }
+                        }
+                    }
+                    o
+                }
+                Err(mpsc::RecvTimeoutError::Timeout) => Outcome::Hang,
+                Err(mpsc::RecvTimeoutError::Disconnected) => {
+                    let st = w.child.wait().map(|s| format!("{}", s)).unwrap_or("?".into());
+                    Outcome::Abort(st)
+                }
+            }
+        };
+        if matches!(out, Outcome::Hang | Outcome::Abort(_)) {
+            if let Some(mut w) = self.w.take() {
+                w.kill();
+            }
+        }
+        (out, t0.elapsed().as_secs_f64())
+    }
+    /// which stage is responsible for a hang/abort (re-runs the stages one by one)
+    fn blame(&mut self, lang: &str, pix: Option<u64>, q: &str) -> String {
+        for (bit, name) in STAGE_NAMES {
+            let (o, _) = self.run(lang, bit, pix, q);
+            if o != Outcome::Returned {
+                return name.to_string();
+            }
+        }
+        "?".into()
+    }
+}
+
+impl Drop for Pool {
+    fn drop(&mut self) {
+        if let Some(mut w) = self.w.take() {
+            w.kill();
+        }
+    }
+}
+
+include!("c12_seeds.in");
+include!("c12_gen.in");
 
 fn main() {
     let a: Vec<String> = std::env::args().collect();
-    if a.len() >= 4 && a[1] == "--probe" {
-        run(&a[2], &a[3]);
+    if a.len() >= 2 && a[1] == "--worker" {
+        worker();
         return;
     }
-    if a.len() >= 5 && a[1] == "--nest" {
-        // --nest lang kind depth
-        let d: usize = a[4].parse().unwrap();
-        let q = nest(&a[2], &a[3], d);
-        let l = a[2].clone();
-        let r = match l.as_str() {
-            "gql" => grafeo_adapters::query::gql::parse(&q).map(|_| ()).map_err(|e| e.to_string()),
-            "cypher" => grafeo_adapters::query::cypher::parse(&q).map(|_| ()).map_err(|e| e.to_string()),
-            "sparql" => grafeo_adapters::query::sparql::parse(&q).map(|_| ()).map_err(|e| e.to_string()),
-            "gremlin" => grafeo_adapters::query::gremlin::parse(&q).map(|_| ()).map_err(|e| e.to_string()),
-            "graphql" => grafeo_adapters::query::graphql::parse(&q).map(|_| ()).map_err(|e| e.to_string()),
-            _ => panic!("lang"),
-        };
-        println!("len={} parse: {:?}", q.len(), r.map_err(|e| e.chars().take(80).collect::<String>()));
+    if a.len() >= 2 && a[1] == "--explore" {
+        explore(&a[2..]);
+        return;
     }
-}
-
-fn nest(lang: &str, kind: &str, d: usize) -> String {
-    match (lang, kind) {
-        ("gql", "paren") | ("cypher", "paren") => format!("MATCH (n) WHERE {}1{} = 1 RETURN n", "(".repeat(d), ")".repeat(d)),
-        ("gql", "list") | ("cypher", "list") => format!("MATCH (n) RETURN {}1{}", "[".repeat(d), "]".repeat(d)),
-        ("gql", "not") | ("cypher", "not") => format!("MATCH (n) WHERE {}true RETURN n", "NOT ".repeat(d)),
-        ("gql", "chain") | ("cypher", "chain") => format!("MATCH (n) RETURN 1{}", "+1".repeat(d)),
-        ("sparql", "paren") => format!("SELECT * WHERE {{ ?s ?p ?o FILTER({}1{} = 1) }}", "(".repeat(d), ")".repeat(d)),
-        ("sparql", "group") => format!("SELECT * WHERE {} ?s ?p ?o {}", "{".repeat(d), "}".repeat(d)),
-        ("sparql", "chain") => format!("SELECT * WHERE {{ ?s ?p ?o FILTER(1{} = 1) }}", "+1".repeat(d)),
-        ("graphql", "sel") => format!("{}{}", "{ a ".repeat(d), "}".repeat(d)),
-        ("graphql", "list") => format!("{{ a(x: {}1{}) }}", "[".repeat(d), "]".repeat(d)),
-        ("gremlin", "to") => format!("g.V(){}{}", ".to(g.V()".repeat(d), ")".repeat(d)),
-        _ => panic!("kind"),
-    }
+    harness_main();
 }
